@@ -13,6 +13,7 @@ STALL_MS = 1000          # rw timeout of the process that runs the stall cases
 FAULT_MS = 4000          # rw timeout of the process that runs everything else (> the loop's fixed 2 s)
 LOOP_SLEEP_MS = 2000     # time.Sleep(2 * time.Second) in handleResponse
 SLACK_MS = 2500
+OWN_SLACK_MS = 800       # a call failed by its own deadline returns at the deadline: nothing else is on that path
 KNOWN_RACED = "raced-request-waits-for-own-deadline"
 RACED_MS = 500         # a call issued after the failure must be refused at once
 
@@ -704,6 +705,8 @@ def timing_problems(case, out):
             probs.append("later-call: call %d issued after the failure took %d ms" % (cp["id"], cp["ms"]))
         if cp["wave"] == 1 and cp["ms"] > rw + LOOP_SLEEP_MS + SLACK_MS:
             probs.append("call %d took %d ms" % (cp["id"], cp["ms"]))
+        if cp["wave"] == 1 and cp["ptr"] == "rwtimeout" and cp["ms"] > rw + OWN_SLACK_MS:
+            probs.append("call %d was failed by its own deadline of %d ms only after %d ms" % (cp["id"], rw, cp["ms"]))
         if case.get("fault") == "none" and cp["ms"] > 3000:
             probs.append("call %d took %d ms without any fault" % (cp["id"], cp["ms"]))
     return probs
